@@ -23,7 +23,7 @@ LEVEL = "model_checking"
 
 # quick tier: which of the exported trees (by N) each variant runs; together they still cover
 # every residue of N modulo every D <= 4 (checked at run time), N <= D (b = 1) and N > D
-QUICK_N = {"full": {1, 3, 6, 8, 11}, "int16": {1, 6, 11}, "compressed": {3, 8, 11},
+QUICK_N = {"full": {1, 3, 6, 8, 11}, "int16": {1, 6, 11}, "compressed": {3, 8, 11}, "fd": {3, 8, 11},
            "shard": {0, 1, 3, 6, 8, 11}}
 
 PMAP_ACTIONS = ["Pad", "BatchAll", "ComputeAny", "AllGather", "Unbatch", "Assign", "Regroup"]
@@ -146,8 +146,13 @@ def runs(ck):
     sizes = [[x["ps"] for x in per] for per in r0["per"]]
     rec = {"N": r0["N"], "counts": r0["counts"], "sizes": sizes, "crank": crank}
     variants = [mode] if (mode == "shard" or crank) else ["pmap", "pmapq"]
+    if mode == "pmap" and crank > 0:
+      variants = ["pmap", "pmap_fd"]       # frequent directions: the only root that reads the PREVIOUS preconditioner
     for v in variants:
-      vname = "shard" if mode == "shard" else "compressed" if crank else {"pmap": "full", "pmapq": "int16"}[v]
+      vname = ("shard" if mode == "shard" else "fd" if v == "pmap_fd" else "compressed" if crank
+               else {"pmap": "full", "pmapq": "int16"}[v])
+      fd = v == "pmap_fd"
+      v = "pmap" if fd else v
       if quick and r0["N"] not in QUICK_N[vname]:
         continue                      # budget: quick runs a subset of the exported trees per variant
       # both preconditioner cadences for the full-precision pmap runs (thorough), alternating otherwise
@@ -155,6 +160,8 @@ def runs(ck):
         o = {"mode": v, "P": P, "S": 1, "Start": 1, "merge": False, "block_size": r0["cfg"]["B"],
              "compression_rank": crank, "beta2": [1.0, 0.75][gi % 2], "beta1": [0.0, 0.5][(gi // 2) % 2],
              "graft": ["SGD", "RMSPROP", "ADAGRAD"][gi % 3], "nesterov": bool(gi % 2)}
+        if fd:
+          o.update(fd=True, reuse=True, P=1)
         job = {"o": o, "tree": r0["cfg"]["tree"], "Ds": Ds, "T": 4 if quick else 6,
                "seed": ck.seed * 1000 + gi, "rec": rec}
         if mode == "shard":
@@ -171,6 +178,8 @@ def runs(ck):
   for j, r in zip(jobs, res):
     o = j["o"]
     variant = "compressed" if o["compression_rank"] else {"pmap": "full", "pmapq": "int16", "shard": "shard"}[o["mode"]]
+    if o.get("fd"):
+      variant = "fd"
     if o["mode"] == "shard" and o["compression_rank"]:
       variant = "shard_compressed"
     for D in j["Ds"]:
